@@ -268,6 +268,45 @@ func init() {
 }
 
 func init() {
+	dumpers["exitrows"] = func(p *Prog, m *Model) {
+		pk := map[string]bool{}
+		for _, s := range strings.Split(os.Getenv("PKG"), ",") {
+			pk[s] = true
+		}
+		for _, fn := range allModFuncs(p) {
+			if !pk[pkgOfFunc(fn)] || fn.Synthetic != "" {
+				continue
+			}
+			for _, s := range exitSitesOf(fn) {
+				fmt.Printf("%s\t%s\tPROPS\tREASON\t# %s\n", fnDisplay(fn), s.Sig, p.ipos(s.In))
+			}
+		}
+	}
+	dumpers["fnconds"] = func(p *Prog, m *Model) {
+		fmt.Println("# function (closures by variable name)\ttest it makes, normalised, both polarities; regenerate with bin/nscheck -dump fnconds after every audited change of /repo")
+		var lines []string
+		for _, fn := range allModFuncs(p) {
+			if fn.Synthetic != "" {
+				continue
+			}
+			switch pkgOfFunc(fn) {
+			case "cisco", "asa", "ios", "nxos", "panos", "nsx", "linux":
+			default:
+				continue
+			}
+			for _, c := range fnConditions(fn) {
+				lines = append(lines, fnDisplay(fn)+"\t"+c)
+			}
+		}
+		sort.Strings(lines)
+		prev := ""
+		for _, l := range lines {
+			if l != prev {
+				fmt.Println(l)
+			}
+			prev = l
+		}
+	}
 	dumpers["memorows"] = func(p *Prog, m *Model) {
 		for _, fn := range allModFuncs(p) {
 			if fn.Synthetic != "" {
